@@ -399,16 +399,24 @@ def gen_matching_case(r: random.Random, max_n: int = 24, force_2d: Optional[bool
     fpv = r.random() < 0.2
     case: Dict[str, Any] = {"is2d": is2d, "policy": policy.value, "radius_kind": kind, "fpv": fpv}
 
+    family = "autoware"
+    uuid_first = None
     if is2d:
         mode = r.choice([MatchingMode.CENTERDISTANCE, MatchingMode.IOU2D])
+        if r.random() < 0.3:
+            # traffic-light boxes WITH a ROI are geometry like any other 2D box, whatever the uuid-first option says
+            family, fpv = "traffic_light", False
+            labs = r.sample(["green", "red", "yellow", "red_left"], 2) if few_labels else ["green", "red", "yellow", "red_left"]
+            uuid_first = r.random() < 0.5
+            case.update(family=family, uuid_first=uuid_first, fpv=False)
         task = (EvaluationTask.FP_VALIDATION2D if fpv else r.choice([EvaluationTask.DETECTION2D, EvaluationTask.TRACKING2D]))
         cams = r.sample(CAMERAS, r.choice([1, 1, 2, 3]))
         gts, ests = [], []
         for k in range(n_gt):
             x, y = r.randint(0, 1500), r.randint(0, 900)
             w, h = r.randint(1, 300), r.randint(1, 300)
-            lab = "false_positive" if (fpv or r.random() < 0.12) else r.choice(labs)
-            gts.append(O.obj2d((x, y, w, h), lab, uuid=f"g{k}", frame=r.choice(cams)))
+            lab = "false_positive" if (fpv or (r.random() < 0.12 and family == "autoware")) else r.choice(labs)
+            gts.append(O.obj2d((x, y, w, h), lab, family=family, uuid=f"g{k}", frame=r.choice(cams)))
         for k in range(n_est):
             if gts and r.random() < 0.75:
                 g = r.choice(gts)
@@ -424,7 +432,9 @@ def gen_matching_case(r: random.Random, max_n: int = 24, force_2d: Optional[bool
                 roi = (r.randint(0, 1500), r.randint(0, 900), r.randint(1, 300), r.randint(1, 300))
                 frame = r.choice(cams)
                 lab = r.choice(labs + ["unknown"])
-            ests.append(O.obj2d(roi, lab, score=round(r.random(), 3), uuid=f"e{k}", frame=frame))
+            # (traffic-light estimates often carry the uuid of a ground truth: the regulatory element id)
+            eu = r.choice(gts).uuid if (family == "traffic_light" and gts and r.random() < 0.6) else f"e{k}"
+            ests.append(O.obj2d(roi, lab, family=family, score=round(r.random(), 3), uuid=eu, frame=frame))
         transforms = None
     else:
         mode = r.choice(list(MatchingMode))
@@ -495,9 +505,12 @@ def gen_matching_case(r: random.Random, max_n: int = 24, force_2d: Optional[bool
     if r.random() < 0.5 and fam_labels:
         target_labels = r.sample(fam_labels, r.randint(1, len(fam_labels)))
     else:
-        from perception_eval.common.label import AutowareLabel
+        from perception_eval.common.label import AutowareLabel, TrafficLightLabel
 
-        target_labels = [AutowareLabel(v) for v in O.ORDINARY] + ([AutowareLabel.UNKNOWN] if r.random() < 0.5 else []) + ([AutowareLabel.FP] if r.random() < 0.3 else [])
+        if family == "traffic_light":
+            target_labels = [TrafficLightLabel(v) for v in ["green", "red", "yellow", "red_left"]] + ([TrafficLightLabel.UNKNOWN] if r.random() < 0.5 else [])
+        else:
+            target_labels = [AutowareLabel(v) for v in O.ORDINARY] + ([AutowareLabel.UNKNOWN] if r.random() < 0.5 else []) + ([AutowareLabel.FP] if r.random() < 0.3 else [])
     iou = MAXIMIZE[mode]
     if kind == "none":
         radii = None
@@ -528,6 +541,7 @@ def gen_matching_case(r: random.Random, max_n: int = 24, force_2d: Optional[bool
             matching_mode=mode,
             matchable_thresholds=radii,
             transforms=transforms,
+            **({} if uuid_first is None else {"uuid_matching_first": uuid_first}),
         ),
     }
 
